@@ -729,7 +729,7 @@ class Messenger(Connection):
                 # Either case, TLS handshake begins
                 try:
                     self.secure(self._config.get_ssl_context())
-                except ssl.SSLError as err:
+                except OSError as err:  # includes ssl.SSLError
                     self._logger.error('TLS failed: %s', err)
                     self.close()
                     return
